@@ -1,0 +1,157 @@
+//go:build verif
+
+/*
+Verification hook (build tag `verif` only) for the bus-Command path of the job
+controller: a controller built by the package's own Initialize with fake
+clients, whose command queue and worker queues are non-blocking in-memory
+lists, so that processNextCommand can be run synchronously (also from several
+goroutines) and the requests it enqueues can be read back.  Adds exported
+wrappers only; independent of export_verif.go.
+*/
+
+package job
+
+import (
+	"sync"
+	"time"
+
+	"k8s.io/client-go/informers"
+	"k8s.io/client-go/kubernetes"
+	"k8s.io/client-go/tools/record"
+	"k8s.io/client-go/util/workqueue"
+
+	bus "volcano.sh/apis/pkg/apis/bus/v1alpha1"
+	vcclientset "volcano.sh/apis/pkg/client/clientset/versioned"
+	informerfactory "volcano.sh/apis/pkg/client/informers/externalversions"
+	"volcano.sh/volcano/pkg/controllers/apis"
+	"volcano.sh/volcano/pkg/controllers/framework"
+)
+
+// verifCmdQueue: FIFO list behind workqueue.TypedRateLimitingInterface[any];
+// AddRateLimited re-adds at once, Get on an empty queue reports shutdown.
+type verifCmdQueue struct {
+	mu       sync.Mutex
+	items    []any
+	failures map[any]int
+	retried  int
+}
+
+var _ workqueue.TypedRateLimitingInterface[any] = &verifCmdQueue{}
+
+func (q *verifCmdQueue) Add(item any) {
+	q.mu.Lock()
+	defer q.mu.Unlock()
+	q.items = append(q.items, item)
+}
+func (q *verifCmdQueue) Len() int {
+	q.mu.Lock()
+	defer q.mu.Unlock()
+	return len(q.items)
+}
+func (q *verifCmdQueue) Get() (any, bool) {
+	q.mu.Lock()
+	defer q.mu.Unlock()
+	if len(q.items) == 0 {
+		return nil, true
+	}
+	it := q.items[0]
+	q.items = q.items[1:]
+	return it, false
+}
+func (q *verifCmdQueue) Done(any)                         {}
+func (q *verifCmdQueue) ShutDown()                        {}
+func (q *verifCmdQueue) ShutDownWithDrain()               {}
+func (q *verifCmdQueue) ShuttingDown() bool               { return false }
+func (q *verifCmdQueue) AddAfter(it any, _ time.Duration) { q.Add(it) }
+func (q *verifCmdQueue) AddRateLimited(it any) {
+	q.mu.Lock()
+	q.failures[it]++
+	q.retried++
+	q.mu.Unlock()
+	q.Add(it)
+}
+func (q *verifCmdQueue) Forget(it any) {
+	q.mu.Lock()
+	defer q.mu.Unlock()
+	delete(q.failures, it)
+}
+func (q *verifCmdQueue) NumRequeues(it any) int {
+	q.mu.Lock()
+	defer q.mu.Unlock()
+	return q.failures[it]
+}
+
+// VerifCmdController wraps a jobcontroller for the command path only.
+type VerifCmdController struct {
+	cc *jobcontroller
+	cq *verifCmdQueue
+	wq []*verifCmdQueue
+}
+
+// VerifCmdNewController mirrors newFakeController of job_controller_plugins_test.go.
+func VerifCmdNewController(vc vcclientset.Interface, kube kubernetes.Interface, workers uint32) *VerifCmdController {
+	cc := &jobcontroller{}
+	opt := &framework.ControllerOption{
+		VolcanoClient:           vc,
+		KubeClient:              kube,
+		SharedInformerFactory:   informers.NewSharedInformerFactory(kube, 0),
+		VCSharedInformerFactory: informerfactory.NewSharedInformerFactory(vc, 0),
+		WorkerNum:               workers,
+	}
+	if err := cc.Initialize(opt); err != nil {
+		panic(err)
+	}
+	cc.recorder = &record.FakeRecorder{}
+	v := &VerifCmdController{cc: cc}
+	v.VerifCmdReset(vc)
+	return v
+}
+
+// VerifCmdReset installs a fresh client and empty queues.
+func (v *VerifCmdController) VerifCmdReset(vc vcclientset.Interface) {
+	v.cc.vcClient = vc
+	v.cq = &verifCmdQueue{failures: map[any]int{}}
+	v.cc.commandQueue = v.cq
+	v.wq = nil
+	for i := range v.cc.queueList {
+		q := &verifCmdQueue{failures: map[any]int{}}
+		v.wq = append(v.wq, q)
+		v.cc.queueList[i] = q
+	}
+}
+
+// VerifCmdDeliver is the informer's add notification (addCommand).
+func (v *VerifCmdController) VerifCmdDeliver(cmd *bus.Command) { v.cc.addCommand(cmd) }
+
+// VerifCmdProcessNext runs the real processNextCommand once; false = queue empty.
+func (v *VerifCmdController) VerifCmdProcessNext() bool {
+	if v.cq.Len() == 0 {
+		return false
+	}
+	return v.cc.processNextCommand()
+}
+
+// VerifCmdPending is the number of commands waiting (re-deliveries included).
+func (v *VerifCmdController) VerifCmdPending() int { return v.cq.Len() }
+
+// VerifCmdRetried counts AddRateLimited calls on the command queue.
+func (v *VerifCmdController) VerifCmdRetried() int {
+	v.cq.mu.Lock()
+	defer v.cq.mu.Unlock()
+	return v.cq.retried
+}
+
+// VerifCmdRequests returns (and removes) the requests enqueued to the worker queues.
+func (v *VerifCmdController) VerifCmdRequests() []apis.Request {
+	var out []apis.Request
+	for _, q := range v.wq {
+		for {
+			it, empty := q.Get()
+			if empty {
+				break
+			}
+			out = append(out, it.(apis.Request))
+		}
+	}
+	return out
+}
